@@ -95,13 +95,15 @@ package types
 // difficulty of its turn
 // verif:func verifySeal
 //@ modifies store
-//@ loop 1 invariant forall n uint64 :: visited(n) ==> !(callres("snapshot", 0).Recents[n] == callres("ecrecover", 0) && n > header.Height.RevisionHeight - uint64(len(callres("snapshot", 0).Validators)/2+1))
+//@ loop 1 invariant forall n uint64 :: visited(n) ==> !(callres("snapshot", 0).Recents[n] == callres("ecrecover", 0) && n + uint64(len(callres("snapshot", 0).Validators)/2+1) > header.Height.RevisionHeight)
 //@ callsite ecrecover [this-header-this-chain] dollar_header == header && *chainId == sint(int64(clientState.ChainId))
 //@ callsite snapshot [of-this-client] m == *clientState && dollar_store == store
 //@ callsite SetSigner [records-this-seal] dollar_signer.Height == header.Height && dollar_signer.Validator == callres("ecrecover", 0).Bytes() && dollar_store == store
 //@ ensures [sealed-by-coinbase] result == nil ==> ncalls("ecrecover") == 1 && callsok("ecrecover") && callres("ecrecover", 0) == common.BytesToAddress(header.Coinbase)
 //@ ensures [authorised] result == nil ==> ncalls("snapshot") == 1 && callsok("snapshot") && mapHas(callres("snapshot", 0).Validators, callres("ecrecover", 0))
-//@ ensures [not-recent] result == nil ==> forall n uint64 :: mapHas(callres("snapshot", 0).Recents, n) && callres("snapshot", 0).Recents[n] == callres("ecrecover", 0) ==> n <= header.Height.RevisionHeight - uint64(len(callres("snapshot", 0).Validators)/2+1)
+// (stated as n + limit <= number, i.e. without the subtraction number - limit, which wraps around for number < limit and
+// had been copied from the code into this clause; heights and N are far below 2^63, the sum does not wrap)
+//@ ensures [not-recent] result == nil ==> forall n uint64 :: mapHas(callres("snapshot", 0).Recents, n) && callres("snapshot", 0).Recents[n] == callres("ecrecover", 0) && n < 0x7fffffffffffffff && len(callres("snapshot", 0).Validators) < 0x7fffffff ==> n + uint64(len(callres("snapshot", 0).Validators)/2+1) <= header.Height.RevisionHeight
 //@ ensures [difficulty-of-the-turn] result == nil ==> ncalls("inturn") == 1 && (callres("inturn", 0) ==> header.ToBscHeader().Difficulty.Cmp(diffInTurn) == 0) && (!callres("inturn", 0) ==> header.ToBscHeader().Difficulty.Cmp(diffNoTurn) == 0)
 //@ ensures [seal-recorded] result == nil ==> ncalls("SetSigner") == 1
 
